@@ -547,7 +547,6 @@ static Boolean LayoutWord(tStrComp const* pExpr, struct sLayoutCtx* pCtx) {
 
     as_tempres_ini(&t);
     EvalStrExpression(pExpr, &t);
-    Result = True;
     switch (t.Typ) {
     case TempInt:
     ToInt:
